@@ -396,6 +396,20 @@ def norm_digest(line, with_mem=True, with_vol=True, round_floats=False):
         line = re.sub(r"\}v\[[0-9a-f,\-]*\]", "}", line)
     return line
 
+# Commands whose reply is drawn at random and whose model runs one fixed resolution of the draw (Model/CmdZRand.v
+# default_zpick, Model/CmdKeyspace.v default_keysource): the model-vs-implementation comparison keeps the shape of the reply
+# only; whether the drawn members / key are an allowed outcome is judged by the reference of C17 (ZRANDMEMBER, spec17) and by
+# the digest oracle of C13 (RANDOMKEY).  Both are read-only: the rest of the script is compared strictly.
+RANDOM_WORDS = ("ZRANDMEMBER", "RANDOMKEY")
+
+def random_reply_shape(word, tree):
+    """what of a randomised reply does not depend on the draw"""
+    if word == "RANDOMKEY":
+        return "bulk" if isinstance(tree, str) and tree[:1] == "$" else tree
+    if isinstance(tree, tuple) and tree[0] == "arr":
+        return ("arr", [("arr", len(x[1])) if isinstance(x, tuple) and x[0] == "arr" else "?" for x in tree[1]])
+    return tree
+
 def compare_lines(script, impl_lines, model_lines, reply_opts=None, digest_opts=None):
     """Returns None when equal, else (index, impl, model)."""
     reply_opts = reply_opts or (lambda argv: {})
@@ -411,6 +425,9 @@ def compare_lines(script, impl_lines, model_lines, reply_opts=None, digest_opts=
             opts = reply_opts(ev[2:]) if ev and ev[0] == "cmd" else {}
             x, y = norm_tree(parse_reply(a[2:]), parse_reply(b[2:]), **opts)
             if x == y:
+                continue
+            w = str(ev[2]).upper() if ev and ev[0] == "cmd" and len(ev) > 2 else ""
+            if w in RANDOM_WORDS and random_reply_shape(w, parse_reply(a[2:])) == random_reply_shape(w, parse_reply(b[2:])):
                 continue
         if a.startswith("G ") and b.startswith("G "):
             o = digest_opts or {}
